@@ -100,6 +100,17 @@ E2E_THOROUGH = (("up", 64, 128, {}), ("down", 128, 64, {}), ("up", 32, 256, {}),
                 ("down", 64, 8, {}), ("up", 8, 16, {"via": "AXIConverter"}))
 
 
+def conv_translate(ca, d):
+    """Re-run the translation recorded in a disagreement / failing-input dict (channel, idle-channel garbage or
+    concurrent other request)."""
+    ch = d.get("channel", "aw")
+    req = tuple(d["request"])
+    if d.get("concurrent") and d.get("other"):
+        pair = ca.impl2(req, tuple(d["other"])) if ch == "aw" else ca.impl2(tuple(d["other"]), req)
+        return pair[0] if ch == "aw" else pair[1]
+    return ca.impl(req, ch, d.get("other"))
+
+
 def conv_by_name(name):
     for (kind, a, b, o) in CONVS:
         ca = ConvArith(kind, a, b, **o)
@@ -281,19 +292,23 @@ def search(ctx, disagreements, proof_info):
             for ca in [conv_by_name(d["instance"].split(":")[-1])]:
                 if ca is None:
                     continue
-                got = ca.impl(tuple(d["request"]), d.get("channel", "aw"))
+                got = conv_translate(ca, d)
                 m = ca.oracle(tuple(d["request"]), got)
                 if m:
                     return {"instance": ca.name, "channel": d.get("channel", "aw"), "request": d["request"],
+                            "other": d.get("other"), "concurrent": d.get("concurrent", False),
                             "forwarded": list(got), "monitor": m}
                 rng = random.Random(ctx.seed + 17)
+                prev = None
                 for r in c10lib.conv_supported_requests(rng, ca, 4000):
                     for ch in ("aw", "ar"):
-                        got = ca.impl(r, ch)
-                        m = ca.oracle(r, got)
-                        if m:
-                            return {"instance": ca.name, "channel": ch, "request": list(r), "forwarded": list(got),
-                                    "monitor": m}
+                        for other in (None, prev, d.get("other")):
+                            got = ca.impl(r, ch, other)
+                            m = ca.oracle(r, got)
+                            if m:
+                                return {"instance": ca.name, "channel": ch, "request": list(r),
+                                        "other": list(other) if other else None, "forwarded": list(got), "monitor": m}
+                    prev = (r[0] ^ 0x1234, (r[1] * 7 + 3) & 0xff, rng.randrange(8), rng.randrange(4))
     # 2. Burst2Beat: isolate the burst that was being served when a monitor fired / the model disagreed and
     #    replay it alone from reset under three ready schedules with the monitor armed (short witness)
     machine_dis = [d for d in disagreements if isinstance(d, Disagreement)]
@@ -443,7 +458,7 @@ def replay(ctx, payload):
         if ca is None:
             print("instance %r not found" % name)
             return 2
-        got = ca.impl(tuple(fi["request"]), fi.get("channel", "aw"))
+        got = conv_translate(ca, fi)
         return verdict(ca.oracle(tuple(fi["request"]), got), "request")
     if name.startswith("Burst2Beat/aw12/caps=") or name.startswith("corpus/"):
         caps = tuple(int(c) for c in name.split("=")[1]) if "=" in name else ALL
